@@ -26,6 +26,7 @@ CHECKS["C11"] = {
         H("glyf", "c11.go", "VerifH_C11_roundtrip", ["decoded"],
           quick={"params": {"maxglyphs": 2, "body": 2}, "timeout": 240},
           thorough={"params": {"maxglyphs": 2, "body": 4, "twocomp": 1}, "timeout": 1500, "shards": 2}),
+        H("glyf", "c11.go", "VerifH_C11_composite2", ["decoded"], quick={"timeout": 240, "shards": 2}),
         H("glyf", "c11.go", "VerifH_C11_fixpoint", ["accepted", "simple", "composite"],
           quick={"params": {"bytes": 16}, "timeout": 240},
           thorough={"params": {"bytes": 24}, "timeout": 1500}),
